@@ -247,6 +247,25 @@ impl Population {
                 }
             }
         }
+        // one large INCOMPRESSIBLE value per codec (every other family's values are short cycles
+        // that compress to almost nothing): the compressed block itself is then hundreds of KiB,
+        // beyond any internal buffer of a codec wrapper
+        {
+            let h = vlib::report::hex;
+            let mut x = 0x9E37_79B9_7F4A_7C15u64;
+            let noise: Vec<u8> = (0..300 * 1024)
+                .map(|_| {
+                    x ^= x << 13;
+                    x ^= x >> 7;
+                    x ^= x << 17;
+                    (x >> 24) as u8
+                })
+                .collect();
+            let e: Vec<(String, String)> = vec![(h(b"a"), h(&[1, 2, 3])), (h(b"b"), h(&noise)), (h(b"c"), h(&[4]))];
+            for (c, lv) in CODECS_ONE {
+                fixed.push(FileSpec::new(FileCfg::layout(Some(1024), Some(2), 1).with_codec(c, lv), EntrySpec::Explicit(e.clone())));
+            }
+        }
         let mut ends = Vec::new();
         let mut t = 0;
         for g in &groups {
